@@ -97,3 +97,56 @@ def _history(S, Monitored, REC, entry, n_ene_blocks, n_sr_blocks):
         pd["n_killed_walkers"] = 0
         pd = call(pd)
     return REC
+
+
+def cpmc_history(cls_name, steps=3):
+    """D8-style history: 2 sites, trial (1,1) = [1;1] per spin, one good walker [1;1] and one walker [-10;11] in both spins
+    (finite, non-zero overlap), h1 = 0, U = 4, dt = 0.05, zero fields.  Returns per-step weights / shift."""
+    setup()
+    import jax
+    import jax.numpy as jnp
+    from ad_afqmc import wavefunctions as wf, hamiltonian, propagation
+    norb, nel = 2, (1, 1)
+    T = [jnp.array([[1.0], [1.0]]), jnp.array([[1.0], [1.0]])]
+    trial = wf.uhf_cpmc(norb, nel)
+    wave = {"mo_coeff": T, "rdm1": jnp.array([T[0] @ T[0].T / 2, T[1] @ T[1].T / 2])}
+    ham = {"h0": 0.0, "h1": jnp.zeros((2, norb, norb)), "chol": jnp.zeros((1, norb * norb)), "ene0": 0.0, "u": 4.0, "u_1": 1.0}
+    cls = getattr(propagation, cls_name)
+    kw = dict(dt=0.05, n_walkers=2)
+    if "nn" in cls_name:
+        kw["neighbors"] = ((0, 1),)
+    prop = cls(**kw)
+    hh = hamiltonian.hamiltonian(norb)
+    hd = hh.build_measurement_intermediates(dict(ham), trial, wave)
+    hd = hh.build_propagation_intermediates(hd, prop, trial, wave)
+    if cls_name == "propagator_cpmc_continuous":
+        hd["hs_constant"] = jnp.sqrt(0.05 * 4.0) * jnp.ones(())
+    good, bad = np.array([[1.0], [1.0]]), np.array([[-10.0], [11.0]])
+    walkers = [jnp.array([good, bad]) + 0j, jnp.array([good, bad]) + 0j]
+    pd = prop.init_prop_data(trial, wave, hd, walkers)
+    pd["key"] = jax.random.PRNGKey(0)
+    rec = dict(init_overlaps=np.asarray(pd["overlaps"]).tolist(), steps=[])
+    fields = jnp.zeros((2, norb))
+    for _ in range(steps):
+        pd = prop.propagate(trial, hd, pd, fields, wave)
+        rec["steps"].append(dict(weights=[float(x) for x in np.asarray(pd["weights"]).real], shift=float(np.asarray(pd["pop_control_ene_shift"]).real)))
+    return rec
+
+
+def cpmc_violations(cls_name):
+    """which clauses of C09 fail natively on the D8-style history"""
+    rec = cpmc_history(cls_name)
+    bad = {}
+    prev = [1.0, 1.0]
+    for k, st in enumerate(rec["steps"]):
+        w = st["weights"]
+        if any(not np.isfinite(x) or x < 0 for x in w):
+            bad.setdefault("step", f"step {k}: weights {w}")
+        if any(p == 0.0 and not (x == 0.0) for p, x in zip(prev, w)):
+            bad.setdefault("dead", f"step {k}: a weight that was 0 became {w}")
+        if not np.isfinite(st["shift"]) and any(np.isfinite(x) and x > 0 for x in w):
+            bad.setdefault("shift", f"step {k}: shift {st['shift']} with weights {w}")
+        if not np.isfinite(st["shift"]):
+            bad.setdefault("shift_any", f"step {k}: shift {st['shift']} with weights {w}")
+        prev = w
+    return bad, rec
